@@ -126,6 +126,17 @@ def install_rule_hooks(on_step=None):
     m = mods()
     for (short, name), fn in rule_functions().items():
         setattr(m[short], name, _wrap_rule(short, name, fn, on_step))
+    # processing.chain returns a closure that applies several rules at once: record it as one step named after its parts
+    proc = m["processing"]
+    real_chain = proc.chain
+
+    @functools.wraps(real_chain)
+    def chain(fix_funcs, *args, **kwargs):
+        fix_funcs = tuple(fix_funcs)
+        parts = "+".join(getattr(f, "__name__", "?") for f in fix_funcs)
+        return _wrap_rule("processing", f"chain[{parts}]", real_chain(fix_funcs, *args, **kwargs), on_step)
+
+    proc.chain = chain
 
 
 def _wrap_rule(short, name, fn, on_step):
